@@ -19,6 +19,7 @@ import (
 	"reflect"
 	"strings"
 	"sync"
+	"syscall"
 	"testing"
 	"time"
 
@@ -206,6 +207,8 @@ type c03SysHist struct {
 	reported  map[string]bool
 	serial    int
 	probeNo   int
+	// faulty: the driver currently makes the writes of the file fail.
+	faulty bool
 	// dirty: a violation was seen in the current sweep; broken: in an earlier
 	// sweep since the last accepted access/set.
 	dirty, broken bool
@@ -628,30 +631,147 @@ func (h *c03SysHist) pause() {
 	time.Sleep(time.Duration(h.rng.Intn(300)) * time.Millisecond)
 }
 
-// run plays the history: bursts of admin steps in quick succession; a fast
-// sweep after every step, a full one after the burst and again 1.5 s later,
-// then the file.
-func (h *c03SysHist) run(bursts int) {
+// start launches the binary with TLS enabled.  dir "" makes a fresh work
+// directory; otherwise the given (already prepared) one is used.
+func (h *c03SysHist) start(dir string) (ok bool) {
 	certPEM, keyPEM, err := sysTLSCert(c03SysName, []string{c03SysName, "*." + c03SysName})
 	if err != nil {
 		h.rep.Inconcl("certificate: " + err.Error())
 
-		return
+		return false
 	}
 	h.keyPEM = keyPEM
-	h.dotPort = verifkit.FreePort()
-	h.in, err = sysStart("", sysConfOpts{UpstreamPort: h.up.Port, QLogMemSize: 5000,
-		TLS: sysTLSYAML(c03SysName, h.dotPort, certPEM, keyPEM)})
-	if err != nil {
-		h.rep.Inconcl("start: " + err.Error())
+	for try := 0; ; try++ {
+		h.dotPort = verifkit.FreePort()
+		opts := sysConfOpts{UpstreamPort: h.up.Port, QLogMemSize: 5000, TLS: sysTLSYAML(c03SysName, h.dotPort, certPEM, keyPEM)}
+		if dir == "" {
+			h.in, err = sysStart("", opts)
+		} else {
+			h.in = &sysInst{Dir: dir, WebPort: verifkit.FreePort(), done: make(chan struct{})}
+			h.in.DNSPort = verifkit.FreePort()
+			if err = sysWriteConfig(dir, h.in.WebPort, h.in.DNSPort, opts); err == nil {
+				err = h.in.launch(os.Getenv("VERIF_AGH_BIN"), opts)
+			}
+		}
+		if err == nil {
+			break
+		}
+		if try >= 3 || dir == "" || !strings.Contains(err.Error(), "address already in use") {
+			h.rep.Inconcl("start: " + err.Error())
 
+			return false
+		}
+	}
+	h.note("start with tls.enabled (DoT port %d), empty access lists", h.dotPort)
+
+	return true
+}
+
+// c03SysFaultHistory is a history on a work directory that lives on a small
+// tmpfs of its own, so that the driver can make every write of
+// AdGuardHome.yaml fail (file system full) for a while and let it succeed
+// again later.  The oracle does not change: enforcement and access/list follow
+// the last ACCEPTED access/set whatever happens to the file; the file has to
+// hold those lists within 3 s of the first accepted step after space is back.
+func c03SysFaultHistory(rep *verifkit.Report, up *sysUpstream, idx, cycles int) {
+	h := &c03SysHist{rep: rep, rng: rep.Rand(fmt.Sprintf("fault-history-%d", idx)), idx: idx, up: up, reported: map[string]bool{}}
+	dir, err := os.MkdirTemp(os.Getenv("VERIF_SCRATCH"), "agh-c03full-")
+	if err != nil {
+		rep.Inconcl(err.Error())
+
+		return
+	}
+	defer os.RemoveAll(dir)
+	if merr := syscall.Mount("tmpfs", dir, "tmpfs", 0, "size=24m"); merr != nil {
+		rep.Event("write_fault_history_skipped_cannot_mount_tmpfs")
+
+		return
+	}
+	defer func() { _ = syscall.Unmount(dir, syscall.MNT_DETACH) }()
+	if !h.start(dir) {
+		return
+	}
+	defer h.in.Kill()
+	h.note("the work directory is a 24 MiB tmpfs of its own")
+	rep.Event("write_fault_histories")
+
+	filler := filepath.Join(dir, "filler.bin")
+	fill := func() bool {
+		f, ferr := os.Create(filler)
+		if ferr != nil {
+			return false
+		}
+		chunk := make([]byte, 4096)
+		for {
+			if _, werr := f.Write(chunk); werr != nil {
+				break
+			}
+		}
+		_ = f.Close()
+		h.note("FAULT ON: the file system of the work directory is filled up, writes of AdGuardHome.yaml fail")
+
+		return true
+	}
+	round := func(stage string, full bool) {
+		h.sweep(stage, full)
+	}
+
+	for c := 0; c < cycles; c++ {
+		// Baseline with a working file system.
+		st := h.step("access-set")
+		round(st, true)
+		h.file(st)
+		before := h.last
+
+		if !fill() {
+			rep.Inconcl("cannot create the filler file")
+
+			return
+		}
+		h.faulty = true
+		st = h.step("access-set") + ":config-write-failing"
+		round(st, false)
+		// Did the fault bite?  The file must still hold the lists from before.
+		if got, ferr := h.fileLists(); ferr == nil && got.equal(before) && !h.last.equal(before) {
+			rep.Event("config_file_not_updated_while_disk_full")
+		} else {
+			rep.Event("write_fault_did_not_bite")
+		}
+		followers := [][]string{{"tls-configure"}, {"dns-config", "tls-configure"}, {"protection-toggle", "tls-configure"}}[(idx+c)%3]
+		for _, k := range followers {
+			h.pause()
+			st = h.step(k) + ":config-write-failing"
+			round(st, k == followers[len(followers)-1])
+		}
+		time.Sleep(1500 * time.Millisecond)
+		round(st+"+1.5s", true)
+
+		_ = os.Remove(filler)
+		h.faulty = false
+		h.note("FAULT OFF: the filler is removed")
+		round("after-space-freed", false)
+		// A step that saves the configuration (re-submitting unchanged TLS
+		// settings does not).
+		st = h.step([]string{"protection-toggle", "dns-config"}[(idx+c)%2]) + ":after-space-freed"
+		round(st, true)
+		h.file(st)
+		time.Sleep(1500 * time.Millisecond)
+		round(st+"+1.5s", true)
+		rep.Event("write_fault_cycles")
+	}
+}
+
+// run plays the history: bursts of admin steps in quick succession; a fast
+// sweep after every step, a full one after the burst and again 1.5 s later,
+// then the file.
+func (h *c03SysHist) run(bursts int) {
+	if !h.start("") {
 		return
 	}
 	defer func() {
 		h.in.Kill()
 		_ = os.RemoveAll(h.in.Dir)
 	}()
-	h.note("start with tls.enabled (DoT port %d), empty access lists", h.dotPort)
 
 	followers := []string{"tls-configure", "tls-configure", "dns-config", "protection-toggle", "access-set", "access-set-invalid"}
 	for b := 0; b < bursts; b++ {
@@ -728,7 +848,18 @@ func TestVerifC03Sys(t *testing.T) {
 			h.run(bursts)
 		}()
 	}
+	nFault := verifkit.Pick(2, 4)
+	for i := 0; i < nFault; i++ {
+		wg.Add(1)
+		go func() {
+			defer wg.Done()
+			c03SysFaultHistory(rep, up, 100+i, verifkit.Pick(2, 4))
+		}()
+	}
 	wg.Wait()
+	if rep.EventCount("write_fault_histories") > 0 && rep.EventCount("config_file_not_updated_while_disk_full") == 0 {
+		rep.Inconcl("the write fault never kept AdGuardHome.yaml from being updated")
+	}
 
 	need := map[string]int{
 		"sweeps":                             40,
